@@ -28,9 +28,9 @@
    The replay harness (checks/c13.py) builds the same Hamiltonian in tenpy from the term list and runs the
    real engines; the postconditions it evaluates on their floating-point output with the exact data of
    this module are listed at the end. *)
-EXTENDS Exact, TLC
+EXTENDS Dense, TLC
 
-CONSTANTS Fams,      \* subset of {"classical", "dimer", "mg", "ferro", "chain2"}
+CONSTANTS Fams,      \* subset of {"classical", "dimer", "mg", "ferro", "chain2", "effH"}
           Ls,        \* chain lengths
           NVar       \* number of coupling variants per (family, L, sector)
 
@@ -192,6 +192,7 @@ ValidPar(fam, n, up) ==
       [] fam = "mg" -> n % 2 = 0 /\ n >= 4 /\ up = n \div 2
       [] fam = "chain2" -> n % 2 = 0 /\ n >= 4 /\ up = n \div 2
       [] fam = "ferro" -> up \in 1..(n - 1)
+      [] fam = "effH" -> n = 3 /\ up = 0
 
 Make(p) ==
     LET fam == p[1]
@@ -221,6 +222,88 @@ Make(p) ==
                nondeg |-> rk = dim - 1, ground |-> <<>>, rank |-> rk, conn |-> Connected(terms, B),
                cell |-> CellOf(fam, var), E0cellx4 |-> 4 * Shift(var)]
 
+-----------------------------------------------------------------------------
+(* Layer 3: effective Hamiltonians over the Gaussian integers (family "effH").
+   An MPS of n sites with integer tensors B[i] (shape chi[i] x 2 x chi[i+1], labels vL p vR, all bond values 1) and an
+   MPO with integer tensors W[i] (shape D[i] x D[i+1] x 2 x 2, labels wL wR p p-star) determine, by sums anybody can read,
+       LP[i+1][b', w2, b] = sum  conj(B[i][a', s', b']) W[i][w, w2, s', s] LP[i][a', w, a] B[i][a, s, b]     (labels vR-star wR vR)
+       RP[i-1][a, w, a']  = sum  B[i][a, s, c] W[i][w, w2, s', s] RP[i][c, w2, c'] conj(B[i][a', s', c'])      (labels vL wL vL-star)
+       H1[i0][(a',s',c'), (a,s,c)]        = sum  LP[i0][a', w, a] W[i0][w, w2, s', s] RP[i0][c, w2, c']
+       H2[i0][(a',s',t',c'), (a,s,t,c)]   = sum  LP[i0][a', w, a] W[i0][w, x, s', s] W[i0+1][x, w2, t', t] RP[i0+1][c, w2, c']
+   and H1[i0] theta, H2[i0] theta for the one-/two-site wave function theta of the MPS itself.  All contractions of
+   tenpy on this data are exact in float64, so MPOEnvironment.get_LP/get_RP, OneSiteH/TwoSiteH.matvec and to_matrix
+   (combine on/off, both directions) must return *equal* numbers. *)
+EChi(var) == IF var % 2 = 0 THEN <<1, 2, 2, 1>> ELSE <<1, 2, 1, 1>>
+ED(var) == IF var % 3 = 0 THEN <<1, 2, 2, 1>> ELSE IF var % 3 = 1 THEN <<1, 3, 2, 1>> ELSE <<1, 1, 2, 1>>
+EGen(var, site, n) == <<((7 * n + 3 * site + 5 * var + n * n) % 5) - 2,
+                        IF var % 2 = 1 THEN ((3 * n + site + var) % 3) - 1 ELSE 0>>
+EB(var, i) == LET sh == <<EChi(var)[i + 1], 2, EChi(var)[i + 2]>> IN
+              [shape |-> sh, val |-> [q \in 1..Size(sh) |-> EGen(var, i, q)]]
+EW(var, i) == LET sh == <<ED(var)[i + 1], ED(var)[i + 2], 2, 2>> IN
+              [shape |-> sh, val |-> [q \in 1..Size(sh) |-> EGen(var + 1, i + 3, 2 * q + 1)]]
+\* sum of f over all index tuples of `shape`
+SumOver(shape, f(_)) == GSumSeq([q \in 1..Size(shape) |-> f(Unflat(q - 1, shape))])
+
+ELPnext(lp, b, w) ==      \* absorb site tensors b, w into the left part lp
+    LET chiL == b.shape[1]
+        chiR == b.shape[3]
+        dl == w.shape[1]
+    IN Mk(<<chiR, w.shape[2], chiR>>, LAMBDA o :
+          SumOver(<<chiL, chiL, dl, 2, 2>>, LAMBDA x :   \* x = <<a', a, w, s', s>>
+              GMul(GMul(GConj(At(b, <<x[1], x[4], o[1]>>)), At(w, <<x[3], o[2], x[4], x[5]>>)),
+                   GMul(At(lp, <<x[1], x[3], x[2]>>), At(b, <<x[2], x[5], o[3]>>)))))
+ERPprev(rp, b, w) ==      \* absorb site tensors b, w into the right part rp
+    LET chiL == b.shape[1]
+        chiR == b.shape[3]
+        dr == w.shape[2]
+    IN Mk(<<chiL, w.shape[1], chiL>>, LAMBDA o :
+          SumOver(<<chiR, chiR, dr, 2, 2>>, LAMBDA x :   \* x = <<c, c', w2, s', s>>
+              GMul(GMul(At(b, <<o[1], x[5], x[1]>>), At(w, <<o[2], x[3], x[4], x[5]>>)),
+                   GMul(At(rp, <<x[1], x[3], x[2]>>), GConj(At(b, <<o[3], x[4], x[2]>>))))))
+Unit3 == [shape |-> <<1, 1, 1>>, val |-> <<GOne>>]
+RECURSIVE ELP(_, _)
+ELP(var, i) == IF i = 0 THEN Unit3 ELSE TLCEval(ELPnext(ELP(var, i - 1), EB(var, i - 1), EW(var, i - 1)))
+RECURSIVE ERP(_, _)
+ERP(var, i) == IF i = 2 THEN Unit3 ELSE TLCEval(ERPprev(ERP(var, i + 1), EB(var, i + 1), EW(var, i + 1)))
+
+EH1(var, i0) ==           \* rank-6 tensor [a', s', c', a, s, c]
+    LET lp == ELP(var, i0)
+        rp == ERP(var, i0)
+        w == EW(var, i0)
+        cl == lp.shape[1]
+        cr == rp.shape[1]
+    IN Mk(<<cl, 2, cr, cl, 2, cr>>, LAMBDA o :
+          SumOver(<<w.shape[1], w.shape[2]>>, LAMBDA x :
+              GMul(GMul(At(lp, <<o[1], x[1], o[4]>>), At(w, <<x[1], x[2], o[2], o[5]>>)), At(rp, <<o[6], x[2], o[3]>>))))
+EH2(var, i0) ==           \* rank-8 tensor [a', s', t', c', a, s, t, c]
+    LET lp == ELP(var, i0)
+        rp == ERP(var, i0 + 1)
+        w0 == EW(var, i0)
+        w1 == EW(var, i0 + 1)
+        cl == lp.shape[1]
+        cr == rp.shape[1]
+    IN Mk(<<cl, 2, 2, cr, cl, 2, 2, cr>>, LAMBDA o :
+          SumOver(<<w0.shape[1], w0.shape[2], w1.shape[2]>>, LAMBDA x :
+              GMul(GMul(At(lp, <<o[1], x[1], o[5]>>), At(w0, <<x[1], x[2], o[2], o[6]>>)),
+                   GMul(At(w1, <<x[2], x[3], o[3], o[7]>>), At(rp, <<o[8], x[3], o[4]>>)))))
+ETheta2(var, i0) ==       \* two-site wave function [a, s, t, c] of the MPS
+    LET b0 == EB(var, i0)
+        b1 == EB(var, i0 + 1)
+    IN Mk(<<b0.shape[1], 2, 2, b1.shape[3]>>, LAMBDA o :
+          SumOver(<<b0.shape[3]>>, LAMBDA x : GMul(At(b0, <<o[1], o[2], x[1]>>), At(b1, <<x[1], o[3], o[4]>>))))
+EApply1(h, th) == Mk(th.shape, LAMBDA o : SumOver(th.shape, LAMBDA x : GMul(At(h, o \o x), At(th, x))))
+
+MakeEffH(var) ==
+    [fam |-> "effH", var |-> var, L |-> 3, nup |-> 0,
+     B |-> [i \in 1..3 |-> EB(var, i - 1)], W |-> [i \in 1..3 |-> EW(var, i - 1)],
+     LP |-> [i \in 1..3 |-> ELP(var, i - 1)], RP |-> [i \in 1..3 |-> ERP(var, i - 1)],
+     H1 |-> [i \in 1..3 |-> TLCEval(EH1(var, i - 1))],
+     H1theta |-> [i \in 1..3 |-> EApply1(EH1(var, i - 1), EB(var, i - 1))],
+     H2 |-> [i \in 1..2 |-> TLCEval(EH2(var, i - 1))],
+     theta2 |-> [i \in 1..2 |-> ETheta2(var, i - 1)],
+     H2theta |-> [i \in 1..2 |-> EApply1(EH2(var, i - 1), ETheta2(var, i - 1))],
+     full |-> TInner(EB(var, 2), EApply1(EH1(var, 2), EB(var, 2)), TRUE)]      \* <psi|H|psi>, cut at the last site
+
 NoInst == [fam |-> "none"]
 
 Init == stage = 0 /\ par = <<"none", 0, 0, 0>> /\ inst = NoInst
@@ -234,7 +317,7 @@ Choose ==
 
 Build ==
     /\ stage = 1
-    /\ inst' = Make(par)
+    /\ inst' = IF par[1] = "effH" THEN MakeEffH(par[4]) ELSE Make(par)
     /\ stage' = 2 /\ UNCHANGED par
 
 Next == Choose \/ Build
@@ -247,7 +330,7 @@ BSet(I) == {I.basis[q] : q \in 1..Len(I.basis)}
 TermSet(I) == {I.terms[q] : q \in 1..Len(I.terms)}
 
 \* (4H) v = E0x4 v, v # 0, v lives in the sector
-EigenCert == stage = 2 =>
+EigenCert == (stage = 2 /\ inst.fam # "effH") =>
     LET w == VecOf(inst) IN
     /\ \E s \in BSet(inst) : w[s] # 0
     /\ BSet(inst) = Basis(inst.L, inst.nup)
@@ -261,7 +344,7 @@ ClassicalCert == (stage = 2 /\ inst.fam = "classical") =>
 
 \* frustration-free instances: each projector term is a positive multiple of a projector on the sector and
 \* annihilates v; everything else is a multiple of the identity on the sector  =>  E0x4 is the minimum
-FrustrationFreeCert == (stage = 2 /\ inst.fam # "classical") =>
+FrustrationFreeCert == (stage = 2 /\ inst.fam \notin {"classical", "effH"}) =>
     LET w == VecOf(inst)
         B == BSet(inst)
         rest == SelectSeq(inst.terms, LAMBDA t : ~IsProj(t))
@@ -274,6 +357,15 @@ FrustrationFreeCert == (stage = 2 /\ inst.fam # "classical") =>
        /\ \A t \in TermSet(inst) : ~IsProj(t) => IsDiag(t)
        /\ \A s \in B : HVec(rest, [x \in B |-> IF x = s THEN 1 ELSE 0], s) = inst.E0x4
        /\ inst.nondeg => inst.rank = Len(inst.basis) - 1
+
+\* effH: the full contraction <psi|H|psi> does not depend on the bond at which the chain is cut, the two-site
+\* effective Hamiltonian applied to theta2 reproduces it, and H1/H2 are Hermitian whenever all W are
+EffHCert == (stage = 2 /\ inst.fam = "effH") =>
+    LET Full1(i) == TInner(inst.B[i], inst.H1theta[i], TRUE)
+        Full2(i) == TInner(inst.theta2[i], inst.H2theta[i], TRUE)
+    IN /\ \A i \in 1..3 : Full1(i) = Full1(1)
+       /\ \A i \in 1..2 : Full2(i) = Full1(1)
+       /\ inst.full = Full1(1)
 
 \* "chain2": every term of the finite chain is a translate (by whole unit cells) of a term of the cell, with the
 \* same coefficient, and every cell term occurs -- so the finite certificate speaks about the infinite chain
